@@ -573,6 +573,21 @@ FROZEN_ATTR_TYPES = {
 }
 
 
+# Element types of collections we iterate over (frozen, one reason each).
+FROZEN_ELEMENT_TYPES = {
+    ('ZODB.mvccadapter.MVCCAdapter', '_instances'):
+        'ZODB.mvccadapter.MVCCAdapterInstance',   # new_instance() adds these
+}
+
+
+def element_type(prog, c, attr):
+    for k in prog.mro(c):
+        t = FROZEN_ELEMENT_TYPES.get((getattr(k, 'qualname', None), attr))
+        if t is not None:
+            return prog.cls(t)
+    return None
+
+
 def attr_type(prog, c, attr):
     """Static type of `self.<attr>` for class `c`: a ClassInfo, a tag string
     ('file', 'storage', 'lock:<kind>') or None when unknown."""
